@@ -217,7 +217,7 @@ def build(repo):
             final(self).unacknowledged_limit == old(self).unacknowledged_limit,
             wf(*final(self))''')
     u.body_start((S, 'register'), '        broadcast use axiom_entry_resolved;')
-    u.closure((S, 'register'), r'\|x\|', 'x: &Observer<Endpoint>', 'b: bool', 'ensures b == (x.endpoint == observer.endpoint)')
+    u.closure((S, 'register'), r'\|x\|(?=\s*x\.endpoint == observer\.endpoint)', 'x: &Observer<Endpoint>', 'b: bool', 'ensures b == (x.endpoint == observer.endpoint)')
     u.before((S, 'register'), r'if let Some\(position\) = vec_position', '''        let ghost old_s = resource.observers@;
         let ghost ep = request.source->0;
         let ghost tok = request.message.token@;
